@@ -42,7 +42,9 @@ func verifIsT(target string, v any) bool {
 
 // input kinds: 0 Boolean 1 Integer 2 Decimal 3 String 4 Date 5 DateTime 6 Time 7 Quantity
 // 8 FHIR boolean 9 FHIR integer 10 FHIR string 11 FHIR decimal 12 complex element
-const verifInputKinds = 13
+// 13 FHIR time 14 FHIR date 15 FHIR dateTime 16 FHIR Quantity (elements reached by navigation: the result of a
+// conversion must be the System value, not the element handed back)
+const verifInputKinds = 17
 
 func verifConvInput(kind int) (any, bool) {
 	switch kind {
@@ -89,6 +91,17 @@ func verifConvInput(kind int) (any, bool) {
 		return &dtpb.String{Value: verifrt.NondetString("in.fs", 2)}, true
 	case 11:
 		return &dtpb.Decimal{Value: []string{"1.0", "0", "-3.25"}[verifrt.Choose("in.fd", 3)]}, true
+	case 13:
+		p := []dtpb.Time_Precision{dtpb.Time_SECOND, dtpb.Time_MILLISECOND}[verifrt.Choose("in.ftp", 2)]
+		return &dtpb.Time{ValueUs: 1000 * int64(verifrt.NondetIntRange("in.ft.ms", 0, 86399999)), Precision: p}, true
+	case 14:
+		p := []dtpb.Date_Precision{dtpb.Date_YEAR, dtpb.Date_MONTH, dtpb.Date_DAY}[verifrt.Choose("in.fdp", 3)]
+		return &dtpb.Date{ValueUs: 1000000 * int64(verifrt.NondetIntRange("in.fdate.s", 1704067200, 1704067200+400*86400)), Precision: p, Timezone: "Z"}, true
+	case 15:
+		p := []dtpb.DateTime_Precision{dtpb.DateTime_DAY, dtpb.DateTime_SECOND, dtpb.DateTime_MILLISECOND}[verifrt.Choose("in.fdtp", 3)]
+		return &dtpb.DateTime{ValueUs: 1000 * int64(verifrt.NondetIntRange("in.fdt.ms", 1704067200000, 1704067200000+400*86400000)), Precision: p, Timezone: "Z"}, true
+	case 16:
+		return &dtpb.Quantity{Value: &dtpb.Decimal{Value: []string{"1", "1.5", "-2.50"}[verifrt.Choose("in.fqv", 3)]}, Code: &dtpb.Code{Value: []string{"mg", "1", "days"}[verifrt.Choose("in.fqu", 3)]}}, true
 	default:
 		return &dtpb.HumanName{Family: &dtpb.String{Value: verifrt.NondetString("in.fam", 1)}}, true
 	}
@@ -105,13 +118,13 @@ func verifSourceType(kind int) string {
 		return "Decimal"
 	case 3, 10:
 		return "String"
-	case 4:
+	case 4, 14:
 		return "Date"
-	case 5:
+	case 5, 15:
 		return "DateTime"
-	case 6:
+	case 6, 13:
 		return "Time"
-	case 7:
+	case 7, 16:
 		return "Quantity"
 	}
 	return "complex"
